@@ -114,6 +114,8 @@ def check(ctx: Ctx) -> None:
     from ..idioms import check_input_immutability, public_api
     check_input_immutability(ctx, 'C18.f', public_api(ctx.model, [RS, ZC, SRS, DMRS], constructors=True), floor=8)
     _check_inputs_untouched(ctx)
+    from ..idioms import check_flag_tests_agree
+    check_flag_tests_agree(ctx, 'C18.g', [RS, ZC, SRS, DMRS, 'pyphysim/reference_signals/channel_estimation.py'], floor=1)
     _check_extension(ctx)
     # ------------------------------------------------------------------ C18.b
     ctx.rule('C18.b', 'shift grids 8 (SRS) / 12 (DMRS); shift assertion and phase; root tables 30 x 12/24 over {+-1,+-3}', floor=5)
